@@ -4,7 +4,7 @@
     delete_connection, add_column, delete_column, add_layer, delete_layer break clauses of [Inv]. *)
 From Coq Require Import Ascii String List Bool PArith NArith ZArith QArith FMapPositive Permutation Lia.
 From PTBase Require Import Exn PyStr.
-From P Require Import Assoc GeoState GeoEdit GeoStep Inv InvNames InvSimple Sets InvCol InvConn InvDel InvRefresh InvRename Reach.
+From P Require Import Assoc GeoState GeoEdit GeoStep Inv InvNames InvSimple Sets InvCol InvConn InvDel InvRefresh InvRename InvSplit InvSplit2 Reach.
 Import ListNotations.
 Open Scope list_scope.
 
@@ -183,4 +183,13 @@ Proof.
   eexists. split; [vm_compute; reflexivity|].
   eapply (rename_column_inv g_two_fixed [na] [nz]); [exact g_two_fixed_inv| |vm_compute; reflexivity].
   cbn [combine ren_cols_ok]. vm_compute. auto.
+Qed.
+
+Example split_column_repaired_keeps_inv : exists g', split_column g_two_fixed na nd = Ok g' /\ Inv g'.
+Proof.
+  eexists. split; [vm_compute; reflexivity|].
+  eapply (split_column_inv g_two_fixed na nd); [exact g_two_fixed_inv| |vm_compute; reflexivity].
+  split; [reflexivity|]. split; [reflexivity|].
+  intros c i0 Hc _ Hi d Hd H3 H1. vm_compute in Hc. inversion Hc; subst c. vm_compute in Hi. inversion Hi; subst i0.
+  vm_compute in Hd. destruct Hd as [<-|[]]. vm_compute in H1. intuition discriminate.
 Qed.
